@@ -45,6 +45,7 @@ from _ast import Pow
 from _ast import PyCF_ONLY_AST
 from _ast import RShift
 from _ast import Sub
+from _ast import Tuple
 from _ast import UAdd
 from _ast import USub
 
@@ -625,7 +626,17 @@ class SourceGenerator(NodeVisitor):
     def visit_Subscript(self, node):
         self.visit(node.value)
         self.write("[")
-        self.visit(node.slice)
+        elts = getattr(node.slice, "elts", None)
+        if elts and isinstance(node.slice, Tuple):
+            # x[a:b, c]: slices cannot stand inside parentheses
+            for idx, item in enumerate(elts):
+                if idx:
+                    self.write(", ")
+                self.visit(item)
+            if len(elts) == 1:
+                self.write(",")
+        else:
+            self.visit(node.slice)
         self.write("]")
 
     def visit_Slice(self, node):
